@@ -13,6 +13,7 @@ CONFIG = {
          "thorough": ["-cases", "150000", "-ops", "80"]},
     ],
     "trusted_base": [
+        "Props/C20Batch.lean is about `usedBatch s ids = ids.foldl txUsed s` on the reference model; that one HandleTxsUsed call with several hashes is this fold is checked by txpooldrv op usedn (verif hook VerifQueue.HandleTxsUsed) against both models",
         "Lean 4.33 kernel (axioms per theorem listed under coverage.axioms; at most propext, Classical.choice, Quot.sound)",
         "the reference model OasisModel/TxPool/Sched.lean is the specification; it is tied to go/runtime/txpool by the txpooldrv correspondence (checker with witness: the implementation's picks and eviction victims must be allowed by the model)",
         "the implementation-level model OasisModel/TxPool/Impl.lean is a hand translation of main_queue_scheduler.go; it is tied to the code state by state (max heap content, scheduled map, sender heaps compared after every operation of every generated history) — not by a mechanical extraction",
